@@ -173,6 +173,14 @@ def r3b_codon_functions(ctx):
                     if bool(res) != (c in ref):
                         fail(f"is_start {tname} {c}", is_start.qual, f"Codon({c!r}).is_start_codon_in_specific_translation_table({tname}) = {res}; "
                              f"NCBI start set of the table {'contains' if c in ref else 'does not contain'} {c}", is_start)
+                    if set(c) <= set("ACGT") and isinstance(tv.value, int):
+                        # the table named by its NCBI number (the enumeration is an IntEnum: 1 and 11 are the tables)
+                        n += 1
+                        res_i = it.call_func(is_start, [tv.value], {}, o)
+                        if bool(res_i) != (c in ref):
+                            fail(f"is_start table given by number {tname}", is_start.qual, f"Codon({c!r}).is_start_codon_in_specific_translation_table("
+                                 f"{tv.value}) = {res_i}; the table's NCBI start set {'contains' if c in ref else 'does not contain'} {c} "
+                                 f"(asked with the member {tname}: {res})", is_start)
                 except Raised as e:
                     fail(f"is_start {tname}", is_start.qual, f"start-codon test raises {e.exc_name} for table {tname}", is_start)
     r.count(n)
